@@ -82,13 +82,28 @@ fn run_case(i: usize, case: &Value) -> Value {
             2 => vec![7, 0, 1, 64], // 0: the call is interrupted and repeated
             _ => vec![3],
         });
+        // where the thread's context map is empty, every third record has a message that puts an entry into it while it
+        // is being rendered (a Display implementation that notes a request id): the line is one JSON object all the
+        // same - with the map as it was before or as it is after (JsonLine.tla speaks about the record; when the map
+        // is read during the call is the encoder's choice)
+        struct Noting<'a>(&'a str);
+        impl<'a> std::fmt::Display for Noting<'a> {
+            fn fmt(&self, f: &mut std::fmt::Formatter<'_>) -> std::fmt::Result {
+                log_mdc::insert("late", "x");
+                f.write_str(self.0)
+            }
+        }
+        let noting = mdc.is_empty() && v % 3 == 1;
         let r = catch(|| {
-            enc.encode(
-                &mut cap,
-                &log::Record::builder().level(lvl).target(&target).module_path(module.as_deref()).file(file.as_deref()).line(line)
-                    .args(format_args!("{}", message)).build(),
-            )
+            let mut b = log::Record::builder();
+            b.level(lvl).target(&target).module_path(module.as_deref()).file(file.as_deref()).line(line);
+            if noting {
+                enc.encode(&mut cap, &b.args(format_args!("{}", Noting(&message))).build())
+            } else {
+                enc.encode(&mut cap, &b.args(format_args!("{}", message)).build())
+            }
         });
+        log_mdc::remove("late");
         match r {
             Err(p) => Err(format!("panic: {}", p)),
             Ok(Err(e)) => Err(format!("error: {}", e)),
@@ -117,7 +132,7 @@ fn run_case(i: usize, case: &Value) -> Value {
     let hex = |b: &[u8]| b.iter().map(|x| format!("{:02x}", x)).collect::<String>();
     match res {
         Err(e) => json!({"case": i, "failure": e}),
-        Ok((bytes, tid)) => json!({"case": i, "line_hex": hex(&bytes), "thread_id": tid,
+        Ok((bytes, tid)) => json!({"case": i, "line_hex": hex(&bytes), "thread_id": tid, "mdc_may_also_hold_late": mdc.is_empty() && mix(i) % 3 == 1,
             "expect": {"level": lvl.to_string(), "message": cps(&message), "target": cps(&target),
                        "module_path": module.as_deref().map(cps), "file": file.as_deref().map(cps), "line": line,
                        "thread": thread.as_deref().map(cps),
